@@ -6,6 +6,7 @@
 package simwork
 
 import (
+	"runtime/metrics"
 	"encoding/json"
 	"fmt"
 	"os"
@@ -191,6 +192,21 @@ func Main(t *testing.T, scenarios map[string]RunFunc) {
 	fn := scenarios[job.Scenario]
 	if fn == nil {
 		fatal("unknown scenario %q", job.Scenario)
+	}
+	if limit := job.Params["max_alloc_mb"]; limit > 0 {
+		// resource oracle: one simulated run must not allocate more than the
+		// configured amount (a length announced by an untrusted peer that is used
+		// as an allocation size shows up here long before the process is killed)
+		inner := fn
+		fn = func(t *testing.T, tape *simrt.Tape, o Opts) *Result {
+			before := allocatedBytes()
+			res := inner(t, tape, o)
+			if delta := allocatedBytes() - before; delta > uint64(limit)<<20 {
+				res.Violations = append(res.Violations, Violation{Class: strings.ToLower(job.Property) + "/allocation",
+					Detail: fmt.Sprintf("the run allocated %d MiB (limit for one run of this scenario: %d MiB)", delta>>20, limit)})
+			}
+			return res
+		}
 	}
 	startWatchdog()
 	out := &Out{Property: job.Property, Scenario: job.Scenario, Worker: job.Worker,
@@ -491,4 +507,14 @@ func startWatchdog() {
 			}
 		}
 	}()
+}
+
+// allocatedBytes is the cumulative number of heap bytes allocated by the process.
+func allocatedBytes() uint64 {
+	sample := []metrics.Sample{{Name: "/gc/heap/allocs:bytes"}}
+	metrics.Read(sample)
+	if sample[0].Value.Kind() == metrics.KindUint64 {
+		return sample[0].Value.Uint64()
+	}
+	return 0
 }
